@@ -202,6 +202,29 @@ Proof.
   apply filter_In in Hz as [Hz _]. rewrite Forall_forall in Hx. apply Hx. apply in_map. exact Hz.
 Qed.
 
+Lemma asc_select_pos l : forall k view, asc view ->
+  asc (select_pos l k view) /\ Forall (fun u => In u view) (select_pos l k view).
+Proof.
+  intros k view. revert k. induction view as [|u r IH]; intros k H; cbn [select_pos].
+  - split; constructor.
+  - apply asc_cons_inv in H as [Hr Hu]. destruct (IH (k + 1) Hr) as [Ha Hf].
+    assert (Hf' : Forall (fun x => In x (u :: r)) (select_pos l (k + 1) r)).
+    { eapply Forall_impl; [|exact Hf]. cbn. intros; right; assumption. }
+    destruct (mem k l); [|split; assumption]. split.
+    + constructor; [exact Ha|]. rewrite Forall_forall in *. intros x Hx. apply Hu, Hf, Hx.
+    + constructor; [left; reflexivity|exact Hf'].
+Qed.
+
+Lemma asc_select_view set view : asc view ->
+  asc (select_view set view) /\ Forall (fun u => In u view) (select_view set view).
+Proof.
+  intro H. destruct set as [|l|l]; cbn [select_view].
+  - split; [exact H|]. apply Forall_forall. auto.
+  - split; [apply asc_filter; exact H|]. apply Forall_forall. intros u Hu.
+    apply filter_In in Hu as [Hu _]. exact Hu.
+  - apply asc_select_pos. exact H.
+Qed.
+
 (* sorted(set(l)) of an ascending list is the list *)
 Lemma ninsert_lt x l : Forall (N.lt x) l -> ninsert x l = x :: l.
 Proof.
